@@ -160,10 +160,20 @@ def normAt : Nat → Skel → NF → NF
     the null array, i.e. is the nullable getter) against `putCompactInt32Array` -/
 def primOK (p q : Prim) : Bool := decide (p = q) || (decide (p = .ci32arr) && decide (q = .nci32arr))
 
+/-- `putCompactInt32Array` on the encode side, an explicit loop `getCompactArrayLength; getInt32 …` on the decode
+    side (the other array putters are NOT interchangeable with an explicit loop: `getArrayLength` rejects counts
+    above 2·MaxUint16 that `getInt32Array` / `getStringArray` accept) -/
+def NF.isPrim (q : Prim) : NF → Bool
+  | .prim p .nil => decide (p = q)
+  | _ => false
+
+def loopOK (p : Prim) (w : WKind) (e : NF) : Bool := decide (p = .ci32arr) && decide (w = .compact) && e.isPrim .i32
+
 /-- field by field: same wire kinds; where the encoder may write a null array the decoder accepts it -/
 def NF.mirror : NF → NF → Bool
   | .nil, .nil => true
   | .prim p r, .prim q s => primOK p q && NF.mirror r s
+  | .prim p r, .arr w _ e s => loopOK p w e && NF.mirror r s
   | .arr w n e r, .arr w' n' e' r' => decide (w = w') && (!n || n') && NF.mirror e e' && NF.mirror r r'
   | .len32 b r, .len32 b' r' => NF.mirror b b' && NF.mirror r r'
   | .varlen b r, .varlen b' r' => NF.mirror b b' && NF.mirror r r'
@@ -199,8 +209,13 @@ def NF.toFmt : NF → Option Fmt
 
 /-- `g` carries everything `f` carries, with the same bytes: the same schema up to a decoder that also accepts
     the null form of an int32-counted array or of a compact int32 array (`sub_sound` in Props/C09skel.lean) -/
+def Fmt.isPrim (q : Prim) : Fmt → Bool
+  | .prim p => decide (p = q)
+  | _ => false
+
 def Fmt.sub : Fmt → Fmt → Bool
   | .prim p, .prim q => primOK p q
+  | .prim p, .arr c e => decide (p = .ci32arr) && decide (c = .compact) && e.isPrim .i32
   | .unit, .unit => true
   | .seq a b, .seq c d => Fmt.sub a c && Fmt.sub b d
   | .ite lo hi a b, .ite lo' hi' c d => decide (lo = lo') && decide (hi = hi') && Fmt.sub a c && Fmt.sub b d
